@@ -439,7 +439,7 @@ class DrainMemo:
 
 
 def run_engine_scenario(workload, skip, scripts, oracle, bound, *, shard=None, setup_actions=(), time_cap=1500,
-                        max_executions=60000, events=False, prep_hook=None, extra_scripts=None):
+                        max_executions=60000, events=False, prep_hook=None, extra_scripts=None, fault=None):
     """Generic E3 job: prepare sequentially, race `scripts` (process_one counts per worker),
     drain, evaluate oracle(ctx) -> list of violations.  ctx carries everything observed."""
     from .world import dumps
@@ -454,7 +454,10 @@ def run_engine_scenario(workload, skip, scripts, oracle, bound, *, shard=None, s
            "admissible": sequential_outcomes(workload, prep, events=events)}
     stats = {"cas_lost": 0, "drain_memo_hits": 0, "handler_errors": 0}
 
+    fired = []
+
     def make_execution():
+        HOOKS.fault = None
         fw = FileWorld(prep["image"], prep["behaviours"], prep["task_names"], events=events)
         fw.w.exec_counts = dict(prep["exec_counts"])
         errors = []
@@ -528,12 +531,43 @@ def run_engine_scenario(workload, skip, scripts, oracle, bound, *, shard=None, s
                     errors.append("extra:" + type(e).__name__)
             return run
 
+        if fault is not None:
+            # one-shot injected "database is locked" before the k-th write-path statement of worker `fault[0]`
+            import sqlite3 as _sq
+            import threading as _th
+
+            state = {"n": 0, "done": False, "ident": None}
+            target_idx, k = fault
+            scripts_built = [script(n) for n in scripts]
+            orig = scripts_built[target_idx]
+
+            def wrapped():
+                state["ident"] = _th.get_ident()
+                return orig()
+
+            scripts_built[target_idx] = wrapped
+
+            def inject(conn, sql):
+                if state["done"] or _th.get_ident() != state["ident"]:
+                    return
+                if state["n"] == k:
+                    state["done"] = True
+                    raise _sq.OperationalError("database is locked")
+                state["n"] += 1
+
+            HOOKS.fault = inject
+            fired.append(state)
+            return scripts_built + [extra(x) for x in (extra_scripts or [])], finish
         return [script(n) for n in scripts] + [extra(k) for k in (extra_scripts or [])], finish
 
-    ex = IlvExplorer(make_execution, bound, max_executions=max_executions, time_cap=time_cap,
-                     shard=tuple(shard) if shard else None).run()
+    try:
+        ex = IlvExplorer(make_execution, bound, max_executions=max_executions, time_cap=time_cap,
+                         shard=tuple(shard) if shard else None).run()
+    finally:
+        HOOKS.fault = None
     cleanup_dir()
     s = ex.summary()
+    stats["faults_fired"] = sum(1 for f in fired if f["done"])
     s["stats"] = stats
     s["pending_at_start"] = prep["pending"]
     s["outcome_classes"] = {k[-70:]: n for k, n in list(ex.outcomes.items())[:6]}
